@@ -34,6 +34,7 @@ def run(chk):
         "close, redirect continues release."
     )
     chk.not_decided = "that the response parser consumes exactly one response's bytes (C03/C10), timing of bytes relative to release (covered only through the predicate re-evaluation)."
+    chk.explanation += " After the defect hunt: every await of the request writer task before the body is complete closes the connection on cancellation; a 101 latches should_close; input buffered inside the parser counts for should_close."
     bc = repo.cls(CONN, "BaseConnector")
     rel = repo.func(CONN, "BaseConnector._release")
     get = repo.func(CONN, "BaseConnector._get")
